@@ -29,6 +29,8 @@ DevCollide == Dev = "CollideEither"
 DevStrip == Dev = "StripInPlace"
 DevRestore == Dev = "StripRestore"
 DevScratch == Dev = "DirtyScratch"
+DevMarks == Dev = "SharedMarks"
+DevInProgress == Dev = "SharedInProgress"
 DevNoMutex == Dev = "NoStepMutex"
 DevEnum == Dev = "EnumEarlyReturn"
 
